@@ -1,3 +1,4 @@
+import codecs
 import mimetypes
 import os
 import os.path
@@ -106,6 +107,11 @@ def init_security(config: ConfigParser) -> None:
 
     if config.getboolean("pygopherd", "usechroot"):
         chroot_user = config.get("pygopherd", "root")
+        # Codecs are imported the first time they are looked up, and inside
+        # the jail there is nothing left to import them from: look up the
+        # ones that the mailbox, ZIP and URL code need while we still can.
+        for codec in ("ascii", "latin-1", "cp437", "idna", "unicode_escape"):
+            codecs.lookup(codec)
         os.chroot(chroot_user)
         # chroot() does not move the working directory: without this it would
         # stay outside the new root (and relative paths would still reach it).
